@@ -927,7 +927,12 @@ class VM:
                 return fn, self.bind_impl(info, cal.self_ty)
             # trait default method, if the self type implements the trait in this crate or is generic
             d = P.trait_defaults.get((cal.trait, cal.method))
-            if d is not None:
+            # a provided (default) method is only used when the implementor is known not to override it: a crate
+            # type with an impl of the trait, or the abstract `Self` of the default method being executed. For an
+            # opaque generic type the call is an environment callback.
+            known = cal.self_base == 'Self' or any(i['trait'] == cal.trait and i['self_base'] == cal.self_base
+                                                   for i in P.decls.impls.values())
+            if d is not None and known:
                 env = {'Self': cal.self_ty}
                 tg = P.decls.trait_generics.get(cal.trait, [])
                 for name, val in zip(tg, generic_args(cal.trait_full)):
